@@ -22,7 +22,7 @@ class Rule:
 class Spec:
     def __init__(s):
         s.defs = collections.OrderedDict(); s.def_line = {}
-        s.exclusive = []; s.inclusive = ['INITIAL']; s.options = []
+        s.exclusive = []; s.inclusive = ['INITIAL']; s.options = []; s.sc_order = ['INITIAL']
         s.rules = []; s.sect1_lines = 0; s.sect3_line = None
     @property
     def start_conditions(s): return s.inclusive + s.exclusive
@@ -96,8 +96,8 @@ def parse_spec(text):
         if ln.startswith('/*'):
             if '*/' not in ln: in_comment = True
             i += 1; continue
-        if ln.startswith('%x'): sp.exclusive += ln.split()[1:]; i += 1; continue
-        if ln.startswith('%s'): sp.inclusive += ln.split()[1:]; i += 1; continue
+        if ln.startswith('%x'): sp.exclusive += ln.split()[1:]; sp.sc_order += ln.split()[1:]; i += 1; continue
+        if ln.startswith('%s'): sp.inclusive += ln.split()[1:]; sp.sc_order += ln.split()[1:]; i += 1; continue
         if ln.startswith('%option'): sp.options += ln.split()[1:]; i += 1; continue
         m = re.match(r'^([A-Za-z_][A-Za-z0-9_-]*)[ \t]+(.*\S)\s*$', ln)
         if m: sp.defs[m.group(1)] = m.group(2); sp.def_line[m.group(1)] = i + 1
@@ -177,9 +177,18 @@ class PatternError(Exception): pass
 class P:
     """recursive-descent parser for the pattern subset used by scan.l; produces
     ('set', frozenset) | ('cat', [..]) | ('alt', [..]) | ('star', x) | ('eps',)"""
-    def __init__(s, text, defs, caseless):
+    def __init__(s, text, defs, caseless, dotall=False, extended=False):
         s.t = text; s.i = 0; s.defs = defs; s.cl = caseless
+        s.dotall = dotall; s.ext = extended
         s.bol = False; s.trail = None; s.eol = False
+    def skipx(s):
+        """(?x: ) mode: white space and C comments inside the pattern are ignored"""
+        if not s.ext: return
+        while s.i < len(s.t):
+            if s.t[s.i] in ' \t\n': s.i += 1
+            elif s.t.startswith('/*', s.i):
+                e = s.t.find('*/', s.i + 2); s.i = len(s.t) if e < 0 else e + 2
+            else: break
     def peek(s): return s.t[s.i] if s.i < len(s.t) else None
     def fold(s, cs):
         if not s.cl: return frozenset(cs)
@@ -218,13 +227,16 @@ class P:
         return ('alt', parts) if len(parts) > 1 else parts[0]
     def cat(s):
         items = []
+        s.skipx()
         while s.peek() is not None and s.peek() not in '|)/':
             if s.peek() == '$' and s.i == len(s.t) - 1: break
             items.append(s.rep())
+            s.skipx()
         return ('cat', items)
     def rep(s):
         a = s.atom()
         while True:
+            s.skipx()
             c = s.peek()
             if c == '*': s.i += 1; a = ('star', a)
             elif c == '+': s.i += 1; a = ('cat', [a, ('star', a)])
@@ -242,6 +254,23 @@ class P:
         return a
     def atom(s):
         c = s.peek()
+        if c == '(' and s.t.startswith('(?#', s.i):
+            e = s.t.index(')', s.i); s.i = e + 1; return ('cat', [])
+        if c == '(' and s.t.startswith('(?', s.i):
+            m = re.compile(r'\(\?([isx]*)(?:-([isx]*))?:').match(s.t, s.i)
+            if not m: raise PatternError('bad (? group in %r' % s.t)
+            on, off = m.group(1), m.group(2) or ''
+            saved = (s.cl, s.dotall, s.ext)
+            if 'i' in on: s.cl = True
+            if 's' in on: s.dotall = True
+            if 'x' in on: s.ext = True
+            if 'i' in off: s.cl = False
+            if 's' in off: s.dotall = False
+            if 'x' in off: s.ext = False
+            s.i = m.end(); r = s.alt()
+            if s.peek() != ')': raise PatternError('missing ) in %r at %d' % (s.t, s.i))
+            s.i += 1; s.cl, s.dotall, s.ext = saved
+            return r
         if c == '(':
             s.i += 1; r = s.alt()
             if s.peek() != ')': raise PatternError('missing ) in %r at %d' % (s.t, s.i))
@@ -253,13 +282,20 @@ class P:
                 if s.peek() == '\\': items.append(('set', s.fold([s.esc()])))
                 else: items.append(('set', s.fold([ord(s.t[s.i]) & 255]))); s.i += 1
             s.i += 1; return ('cat', items)
-        if c == '[': return s.ccl()
+        if c == '[':
+            r = s.ccl()
+            while s.t.startswith('{-}', s.i) or s.t.startswith('{+}', s.i):
+                op = s.t[s.i + 1]; s.i += 3
+                if s.peek() != '[': raise PatternError('class expected after {%s}' % op)
+                r2 = s.ccl()
+                r = ('set', frozenset(r[1] - r2[1]) if op == '-' else frozenset(r[1] | r2[1]))
+            return r
         if c == '{':
             j = s.t.index('}', s.i); name = s.t[s.i + 1:j]; s.i = j + 1
             if name not in s.defs: raise PatternError('undefined {%s}' % name)
-            sub = P('(' + s.defs[name] + ')', s.defs, s.cl); r = sub.alt()
+            sub = P('(' + s.defs[name] + ')', s.defs, s.cl, s.dotall, s.ext); r = sub.alt()
             return r
-        if c == '.': s.i += 1; return ('set', ALL - {10})
+        if c == '.': s.i += 1; return ('set', ALL if s.dotall else ALL - {10})
         if c == '\\': return ('set', s.fold([s.esc()]))
         if c == '^':
             s.i += 1; return ('set', s.fold([ord('^')]))
